@@ -66,7 +66,7 @@ func c15(run *ev.Run, tier string) {
 			s.VersionMetadata = rng.Pick(r, []string{"git", "build5", "20200101", "p1", "git-abc123", "b-5"})
 		}
 		if r.P(1, 2) {
-			s.Release = rng.Pick(r, []string{"1", "2", "17", "r3", "03", "007", "+2", "1.5", "0"})
+			s.Release = rng.Pick(r, []string{"1", "2", "17", "r3", "03", "007", "+2", "1.5", "0", "4294967296", "20240131120000"})
 		}
 		if r.P(1, 3) {
 			s.Epoch = rng.Pick(r, []string{"0", "1", "3"})
